@@ -788,6 +788,283 @@ def nsi_global_efficiency(A):
 
 
 # --------------------------------------------------------------------------
+# scale: vectorised evaluators (same definitions, dense numpy) and the
+# n.s.i. measures with arbitrary node weights w
+#
+# n.s.i. definitions (Heitzig et al. 2012, reproduced on the docstring
+# examples): every node is its own neighbour (A+), node j counts with weight
+# w_j wherever the unweighted definition counts it once, d(i,i) = 1.
+
+
+def np_path_lengths(A, W=None):
+    """float matrix of shortest path lengths (inf = unreachable).  Unweighted:
+    BFS over adjacency lists; weighted: vectorised Floyd-Warshall on the
+    attribute values scaled to exact integers."""
+    n = len(A)
+    if W is None:
+        return np.array(path_lengths(A), dtype=float)
+    a = np.array(A, dtype=bool)
+    scale = 1
+    for i in range(n):
+        for j in range(n):
+            if A[i][j]:
+                d = Fraction(W[i][j]).denominator
+                scale = scale * d // math.gcd(scale, d)
+    BIG = np.int64(1) << 60
+    D = np.full((n, n), BIG, dtype=np.int64)
+    Wi = np.rint(np.array(W, dtype=float) * scale).astype(np.int64)
+    assert np.array_equal(Wi[a] / float(scale), np.array(W, dtype=float)[a])
+    D[a] = Wi[a]
+    D[np.arange(n), np.arange(n)] = 0
+    for k in range(n):
+        D = np.minimum(D, D[:, k:k + 1] + D[k:k + 1, :])
+    out = D.astype(float) / scale
+    out[D >= BIG] = INF
+    return out
+
+
+def np_sigma(A, w=None):
+    """(D, S): BFS distances and S[s, t] = sum over shortest s-t paths of the
+    product of the weights of the interior nodes (w = None: path counts)."""
+    n = len(A)
+    nb = out_nb(A)
+    ww = [1.0] * n if w is None else [float(x) for x in w]
+    D = np.full((n, n), INF)
+    S = np.zeros((n, n))
+    for s in range(n):
+        dist = [-1] * n
+        sig = [0.0] * n
+        dist[s], sig[s] = 0, 1.0
+        frontier = [s]
+        while frontier:
+            nxt = []
+            for v in frontier:
+                f = sig[v] * (1.0 if v == s else ww[v])
+                for x in nb[v]:
+                    if dist[x] < 0:
+                        dist[x] = dist[v] + 1
+                        nxt.append(x)
+                    if dist[x] == dist[v] + 1:
+                        sig[x] += f
+            frontier = nxt
+        for t in range(n):
+            if dist[t] >= 0:
+                D[s, t] = dist[t]
+                S[s, t] = sig[t]
+    return D, S
+
+
+def np_betweenness(D, S, directed, sources=None, targets=None, w=None,
+                   ordered=None):
+    """sum over pairs (s, t), s != t, v not in {s, t}, of
+    w_s w_t S[s,v] S[v,t] / S[s,t] where d(s,v) + d(v,t) = d(s,t).
+    Pairs: sources x targets if given (ordered), else all ordered pairs
+    (directed) or all unordered pairs (undirected) unless `ordered`."""
+    n = len(D)
+    ws = np.ones(n) if w is None else np.asarray(w, dtype=float)
+    src = np.zeros(n)
+    tgt = np.zeros(n)
+    src[list(range(n)) if sources is None else sorted(set(sources))] = 1
+    tgt[list(range(n)) if targets is None else sorted(set(targets))] = 1
+    if ordered is None:
+        ordered = directed or sources is not None or targets is not None
+    pair = np.outer(src * ws, tgt * ws)
+    np.fill_diagonal(pair, 0.0)
+    reach = np.isfinite(D) & (S > 0)
+    with np.errstate(divide="ignore", invalid="ignore"):
+        base = np.where(reach, pair / np.where(reach, S, 1.0), 0.0)
+    b = np.zeros(n)
+    for v in range(n):
+        on = (D[:, v:v + 1] + D[v:v + 1, :] == D) & reach
+        on[v, :] = False
+        on[:, v] = False
+        contrib = np.outer(S[:, v], S[v, :])
+        b[v] = (base * contrib)[on].sum()
+    return b if ordered else b / 2.0
+
+
+def np_link_betweenness(A, D, S):
+    """Undirected: B[u,v] = sum over unordered pairs {s,t} of the fraction of
+    shortest s-t paths that use the link u-v."""
+    n = len(A)
+    reach = np.isfinite(D) & (S > 0)
+    np.fill_diagonal(reach, False)
+    inv = np.where(reach, 1.0 / np.where(reach, S, 1.0), 0.0)
+    B = np.zeros((n, n))
+    for u in range(n):
+        for v in range(u + 1, n):
+            if not A[u][v]:
+                continue
+            tot = 0.0
+            for (a, b) in ((u, v), (v, u)):
+                on = (D[:, a:a + 1] + 1 + D[b:b + 1, :] == D) & reach
+                tot += (inv * np.outer(S[:, a], S[b, :]))[on].sum()
+            B[u, v] = B[v, u] = tot / 2.0
+    return B
+
+
+def np_weighted_local_clustering(W):
+    w = np.array(W, dtype=float)
+    num = np.einsum("ij,jk,ki->i", w, w, w)
+    den = w.max() * w.sum(axis=1) * w.sum(axis=0)
+    return [float(num[i] / den[i]) if den[i] != 0 else None
+            for i in range(len(w))]
+
+
+def np_matching_index(A):
+    a = np.array(A, dtype=float)
+    common = a @ a.T
+    k = a.sum(axis=1)
+    union = k[:, None] + k[None, :] - common
+    return [[(float(common[i, j] / union[i, j]) if union[i, j] > 0 else None)
+             for j in range(len(a))] for i in range(len(a))]
+
+
+def nsi_w(A, w):
+    """Dictionary of the degree / clustering type n.s.i. measures for node
+    weights w (undirected and directed)."""
+    P = np.array(plus(A), dtype=float)
+    w = np.asarray(w, dtype=float)
+    n = len(w)
+    kout = P @ w
+    kin = P.T @ w
+    res = {"outdegree": kout, "indegree": kin,
+           "bildegree": np.array([sum(P[i, j] * P[j, i] * w[j]
+                                      for j in range(n)) for i in range(n)])}
+    X = P * w[None, :]                       # X_ij = A+_ij w_j
+    XT = P.T * w[None, :]                    # (A+^T)_ij w_j
+    res["cycle"] = np.einsum("ij,ji->i", X @ X, P) / (kin * kout)
+    res["mid"] = np.einsum("ij,ji->i", X @ XT, P) / (kin * kout)
+    res["in"] = np.einsum("ij,ji->i", XT @ X, P) / kin ** 2
+    res["out"] = np.einsum("ij,ji->i", X @ X, P.T) / kout ** 2
+    if is_symmetric(A):
+        k = kout
+        res["degree"] = k
+        res["average_neighbors_degree"] = (X @ k) / k
+        res["max_neighbors_degree"] = np.array(
+            [max(k[j] for j in range(n) if P[i, j]) for i in range(n)])
+        res["local_clustering"] = res["cycle"] * 1.0
+        res["transitivity"] = float(
+            (w * np.einsum("ij,ji->i", X @ X, P)).sum() / (w * k * k).sum())
+        res["laplacian"] = np.diag(k) - X
+    else:
+        res["degree"] = kin + kout
+    return res
+
+
+def nsi_w_paths(D, w):
+    """n.s.i. distance measures from the matrix D of path lengths."""
+    w = np.asarray(w, dtype=float)
+    W = w.sum()
+    Ds = np.array(D, dtype=float)
+    np.fill_diagonal(Ds, 1.0)
+    fin = np.isfinite(Ds)
+    ww = np.outer(w, w)
+    Dz = np.where(fin, Ds, 0.0)
+    inv = np.where(fin, 1.0 / np.where(fin, Ds, 1.0), 0.0)
+    ex = np.where(fin, 2.0 ** (-np.where(fin, Ds, 0.0)), 0.0)
+    rows = Dz @ w
+    return {
+        "average_path_length": float((ww * Dz).sum() / ww[fin].sum()),
+        "closeness": np.where(fin.all(axis=1), W / rows, 0.0),
+        "harmonic_closeness": inv @ w / W,
+        "exponential_closeness": ex @ w / W,
+        "global_efficiency": float((ww * inv).sum() / W ** 2)}
+
+
+def nsi_w_eigenvector_centrality(A, w):
+    """Leading eigenvector of Dw^1/2 A+ Dw^1/2 divided by sqrt(w), max 1."""
+    w = np.asarray(w, dtype=float)
+    P = np.array(plus(A), dtype=float)
+    r = np.sqrt(w)
+    vals, vecs = np.linalg.eigh(r[:, None] * P * r[None, :])
+    v = vecs[:, int(np.argmax(vals))] / r
+    v = v * (1.0 if v.sum() >= 0 else -1.0)
+    return v / v.max(), float(vals.max())
+
+
+def _nsi_chain(a, ww):
+    Ap = a + np.eye(len(a))
+    k = Ap @ ww
+    return Ap, k, Ap * ww[None, :] / k[:, None]
+
+
+def nsi_w_arenas_betweenness(A, w, exclude_neighbors=True):
+    """Random walk with step i -> j proportional to w_j over N+(i); for a
+    target i the walk stops on reaching N+(i); value at j = sum over targets
+    i and sources s (weights w_i w_s) of the expected number of arrivals at
+    j, per unit weight of j; with exclude_neighbors only i, s outside
+    N+(j)."""
+    n = len(A)
+    w = np.asarray(w, dtype=float)
+    res = np.zeros(n)
+    for comp in components(A):
+        m = len(comp)
+        if m < 2:
+            continue
+        a = np.array([[A[i][j] for j in comp] for i in comp], dtype=float)
+        ww = w[comp]
+        Ap, k, P = _nsi_chain(a, ww)
+        tot = np.zeros(m)
+        for i in range(m):
+            ab = Ap[i] > 0
+            tr = ~ab
+            if not tr.any():
+                continue
+            Q = P[np.ix_(tr, tr)]
+            F = np.linalg.solve(np.eye(int(tr.sum())) - Q,
+                                np.eye(int(tr.sum())))
+            contrib = np.zeros(m)
+            contrib[tr] = ww[tr] @ (F - np.eye(int(tr.sum())))
+            if not exclude_neighbors:
+                contrib[ab] = ww[tr] @ (F @ P[np.ix_(tr, ab)])
+            tot += ww[i] * contrib
+        res[comp] = tot / ww
+    return res
+
+
+def nsi_w_newman_betweenness(A, w, add_local_ends=False):
+    """Current-flow reading: conductance w_i w_j on every link; for a pair
+    (s, t) a unit current enters with the one-step distribution of the n.s.i.
+    walk from s and leaves with that from t; value at i = sum over pairs
+    {s, t} outside N+(i) (weights w_s w_t) of sum_j w_j |phi_i - phi_j| over
+    the neighbours j of i."""
+    n = len(A)
+    w = np.asarray(w, dtype=float)
+    res = np.zeros(n)
+    for comp in components(A):
+        m = len(comp)
+        ww = w[comp]
+        if m < 2:
+            if add_local_ends:
+                res[comp[0]] = ww[0] ** 2
+            continue
+        a = np.array([[A[i][j] for j in comp] for i in comp], dtype=float)
+        Ap, k, P = _nsi_chain(a, ww)
+        C = a * np.outer(ww, ww)
+        # potentials with node 0 grounded (the injected and extracted
+        # currents of a pair cancel, so the gauge drops out of phi_i - phi_j)
+        Lc = np.diag(C.sum(axis=1)) - C
+        T = np.zeros((m, m))
+        T[1:, 1:] = np.linalg.solve(Lc[1:, 1:], np.eye(m - 1))
+        Phi = T @ P.T
+        b = np.zeros(m)
+        for i in range(m):
+            idx = np.nonzero(Ap[i] == 0)[0]
+            if len(idx) < 2:
+                continue
+            wpair = np.outer(ww[idx], ww[idx])
+            for j in np.nonzero(a[i])[0]:
+                dv = Phi[i, idx] - Phi[j, idx]
+                b[i] += ww[j] * 0.5 * (
+                    np.abs(dv[:, None] - dv[None, :]) * wpair).sum()
+        if add_local_ends:
+            b += (2.0 * ww.sum() - k) * k
+        res[comp] = b
+    return res
+
+
+# --------------------------------------------------------------------------
 # the docstring examples that fix the conventions
 
 
@@ -848,4 +1125,46 @@ def docstring_selftest():
           [0.2969, 0.0625, -0.0313, -0.0078, 0.0977, -0.125])
     close(coreness(S, False), [2, 2, 2, 2, 2, 1])
     close(laplacian(S)[0], [3, 0, 0, -1, -1, -1])
+    # vectorised and node-weighted evaluators
+    w = [1.5, 1.7, 1.9, 2.1, 2.3, 2.5]
+    Dn, Sn = np_sigma(S)
+    close(np_betweenness(Dn, Sn, False), [4.5, 1.5, 0., 1., 3., 0.])
+    close(np_link_betweenness(S, Dn, Sn)[0], [0., 0., 0., 3.5, 5.5, 5.])
+    Dw_, Sw_ = np_sigma(S, w)
+    close(np_betweenness(Dw_, Sw_, False, w=w, ordered=True),
+          [29.6854, 7.7129, 0., 3.0909, 9.6996, 0.])
+    close(np_betweenness(Dw_, Sw_, False, [2], [3, 5], w=w),
+          [3.1667, 2.3471, 0., 0., 2.0652, 0.])
+    r = nsi_w(S, w)
+    close(r["degree"], [8.4, 8., 5.9, 5.3, 7.4, 4.])
+    close(r["average_neighbors_degree"],
+          [6.0417, 6.62, 7.0898, 7.0434, 7.3554, 5.65])
+    close(r["max_neighbors_degree"], [8.4, 8., 8., 8.4, 8.4, 8.4])
+    close(r["local_clustering"], [0.5513, 0.7244, 1., 0.8184, 0.8028, 1.])
+    close(r["laplacian"][0], [6.9, 0., 0., -2.1, -2.3, -2.5])
+    rd = nsi_w(SD, w)
+    close(rd["indegree"], [6.3, 5.3, 5.9, 3.6, 4., 2.5])
+    close(rd["outdegree"], [5.3, 5.9, 1.9, 3.8, 5.7, 4.])
+    close(rd["cycle"], [0.1845, 0.2028, 0.322, 0.3224, 0.3439, 0.625])
+    close(rd["mid"], [0.4537, 0.5165, 1., 1., 0.8882, 1.])
+    close(rd["in"], [0.5288, 0.67, 0.6693, 0.7569, 0.7556, 1.])
+    close(rd["out"], [0.67, 0.6693, 1., 0.7528, 0.5839, 0.7656])
+    pw = nsi_w_paths(np_path_lengths(S), w)
+    close(pw["average_path_length"], 1.6003)
+    close(pw["closeness"], [0.7692, 0.6486, 0.5825, 0.6417, 0.7229, 0.5085])
+    close(pw["harmonic_closeness"],
+          [0.85, 0.7986, 0.7111, 0.7208, 0.8083, 0.6167])
+    close(pw["exponential_closeness"],
+          [0.425, 0.3906, 0.3469, 0.3604, 0.4042, 0.2958])
+    close(pw["global_efficiency"], 0.7415)
+    close(nsi_w_eigenvector_centrality(S, w)[0],
+          [0.8045, 1., 0.8093, 0.6179, 0.9867, 0.2804])
+    close(nsi_w_arenas_betweenness(S, w),
+          [20.5814, 29.2103, 27.0075, 19.5434, 25.2849, 24.8483])
+    close(nsi_w_arenas_betweenness(S, w, exclude_neighbors=False),
+          [44.5351, 37.4058, 27.0075, 21.7736, 31.3256, 24.8483])
+    close(nsi_w_newman_betweenness(S, w),
+          [0.4048, 0., 0.8521, 3.3357, 1.3662, 0.])
+    close(nsi_w_newman_betweenness(S, w, add_local_ends=True),
+          [131.4448, 128., 107.6421, 102.4457, 124.2062, 80.])
     return True
